@@ -1293,6 +1293,77 @@ func indexOfItem(items []*upItemSpec, it *upItemSpec) int {
 	return -1
 }
 
+// runC10NameTooLong: KNOWN FINDING name-too-long-for-incomplete-suffix.  A folder upload containing a FILE whose
+// name is 245..255 bytes long, followed by further items: the file is received under <name>.incomplete, which
+// exceeds the file system's 255-byte name limit; the handler returns and the later items are lost.  Only the
+// property's own predicate is evaluated here (the model has no name-length limit), under exactly that key.
+func runC10NameTooLong(c *Case) {
+	r := c.R
+	L := []int{245, 250, 255}[c.Idx%3]
+	if c.Idx >= 3 {
+		L = 245 + r.Intn(11)
+	}
+	ts, err := newTS(TSOpt{Direct: true})
+	if err != nil {
+		return
+	}
+	set := &transferSet{ts: ts, x: c.X}
+	defer func() {
+		set.waitAll()
+		ts.Close()
+	}()
+	cc, _ := ts.DirectClient("admin", []byte("admin"), "127.0.0.1:1234")
+	long := longName(r, fmt.Sprintf("file%d-", L), L)
+	mk := func(isDir bool, data []byte, comps ...string) *upItemSpec {
+		it := &upItemSpec{isDir: isDir, fc: 2, data: data}
+		for _, cp := range comps {
+			it.comps = append(it.comps, []byte(cp))
+		}
+		it.key = compsKey(it.comps)
+		if !isDir {
+			it.info = randInfoSpec(r, []byte(comps[len(comps)-1]))
+			it.info.Comment = nil
+		}
+		return it
+	}
+	items := []*upItemSpec{mk(true, nil, "before"), mk(false, genData(r, 40), "before", "ok.txt"), mk(false, genData(r, 1+r.Intn(500)), long),
+		mk(true, nil, "after"), mk(false, genData(r, 25), "after", "later.txt")}
+	folder := fmt.Sprintf("toolong-%d", L)
+	total := 0
+	for _, it := range items {
+		total += len(it.data)
+	}
+	res, _, pan := ts.Call(cc, mkTran(hotline.TranUploadFldr, 7, fld(hotline.FieldFileName, []byte(folder)),
+		fld(hotline.FieldTransferSize, be32(total)), fld(hotline.FieldFolderItemCount, be16(len(items)))))
+	if pan != nil || len(res) != 1 || res[0].ErrorCode != [4]byte{} {
+		return
+	}
+	refB, _ := getField(&res[0], hotline.FieldRefNum)
+	var ref [4]byte
+	copy(ref[:], refB)
+	cl := &fulClient{items: items, cutItem: -1, offsets: map[int]int{}}
+	x := set.start(ref, newDlgConn(preambleBytes(ref, total), nil, cl.next))
+	if !x.waitBody() {
+		c.Violation("transfer-handler-hangs", "the folder upload did not finish")
+		return
+	}
+	_, final, _, dirs, _ := diskStore(filepath.Join(ts.Root, folder))
+	c.Note("long_file_name_bytes", L)
+	c.Note("items", []string{"before/", "before/ok.txt", fmt.Sprintf("<%d-byte name>", L), "after/", "after/later.txt"})
+	c.Note("listing", listDir(filepath.Join(ts.Root, folder)))
+	if !dirs["before"] || !bytesEq(final["before/ok.txt"], items[1].data) {
+		c.Violation("uploaded-file-not-exact", "the items streamed BEFORE the long-named file were not recreated")
+	}
+	if b, has := final[long]; !has || !bytesEq(b, items[2].data) {
+		c.Violation("name-too-long-for-incomplete-suffix", fmt.Sprintf("a folder upload did not recreate a file whose name is %d bytes long", L))
+	}
+	if b, has := final["after/later.txt"]; !dirs["after"] || !has || !bytesEq(b, items[4].data) {
+		c.Violation("name-too-long-for-incomplete-suffix", fmt.Sprintf("the items streamed after a file whose name is %d bytes long were not recreated", L))
+	}
+	c.Nontrivial(fmt.Sprintf("toolong|%d", L))
+	c.Dist("name-too-long-witness")
+}
+
 // runC10Regressions replays the witnesses of the three defects repaired in /repo (fef72d3, 6c1e410, 6ca3f0f) on every run.
 func runC10Regressions(c *Case) {
 	r := c.R
@@ -1344,9 +1415,10 @@ func init() {
 			"root folder names are visible (no leading dot); names ending in .incomplete or starting with .info_/.rsrc_ are not generated (the on-disk naming scheme cannot tell them from partial/side files)",
 			"resume of a file with a stored resource fork, and a resource fork without an information fork, are compared with the model as coded (DESIGN §7 C08 'not covered': resume of the resource fork); the size-prefix clause is judged directly only without a stored resource fork or for 'send'",
 			"folder upload item paths are plain names (cleaning of hostile paths is C07's subject)",
-			"uploaded FILE names are at most 244 bytes: the server receives a file under <name>.incomplete, which must fit the file system's 255-byte name limit; folder names and stored (downloaded) file names go up to 255",
+			"uploaded FILE names are at most 244 bytes in every family except name-too-long-witness (known finding name-too-long-for-incomplete-suffix: the server receives a file under <name>.incomplete, which must fit the file system's 255-byte name limit); folder names and stored (downloaded) file names go up to 255",
 		}
 		x.Add(&Family{Name: "regressions", Quick: 1, Thor: 1, Run: runC10Regressions})
+		x.Add(&Family{Name: "name-too-long-witness", Quick: 3, Thor: 4, Run: runC10NameTooLong})
 		x.Add(&Family{Name: "long-names", Quick: 8, Thor: 48, Run: runC10LongNames})
 		x.Add(&Family{Name: "folder-download", Quick: 48, Thor: 640, Run: runC10Download})
 		x.Add(&Family{Name: "folder-upload", Quick: 48, Thor: 640, Run: runC10Upload})
